@@ -1,6 +1,9 @@
 package c16
 
-// A reference interpreter for exactly the DDL subset that pkg/database emits for postgres.
+// A reference interpreter for exactly the DDL subset that pkg/database emits for postgres
+// (plus the few forms the repairs proposed in FINDINGS.md would emit: DROP TABLE, DROP
+// SEQUENCE, DROP COLUMN .. CASCADE, DROP CONSTRAINT IF EXISTS, CREATE SEQUENCE IF NOT EXISTS,
+// ALTER COLUMN .. DROP DEFAULT).
 // It keeps a catalog (tables, columns with types, primary key, foreign keys, sequences) and
 // rejects what a real postgres rejects structurally. It knows nothing about pkg/database:
 // statement forms were taken from the PostgreSQL grammar, restricted to the forms seen in the
@@ -398,12 +401,84 @@ func (in *Interp) execOne(st stmtToks) (form string, rj *reject, pf *parseFail) 
 		in.createTable(c)
 	case c.kw("create", "sequence"):
 		form = "CREATE SEQUENCE"
+		ifNot := c.kw("if", "not", "exists")
 		name := mustIdent(c, "sequence name")
 		mustEnd(c)
 		if in.Cat.relationExists(name) {
+			if ifNot {
+				form = "CREATE SEQUENCE IF NOT EXISTS"
+				break
+			}
 			panic(reject{kind: "relation-exists", other: name, msg: fmt.Sprintf("relation %q already exists", name)})
 		}
 		in.Cat.Seqs[name] = ""
+	case c.kw("drop", "sequence"):
+		form = "DROP SEQUENCE"
+		ifEx := c.kw("if", "exists")
+		name := mustIdent(c, "sequence name")
+		cascade := c.kw("cascade")
+		mustEnd(c)
+		if _, ok := in.Cat.Seqs[name]; !ok {
+			if ifEx {
+				break
+			}
+			panic(reject{kind: "unknown-sequence", other: name, msg: fmt.Sprintf("sequence %q does not exist", name)})
+		}
+		for _, tn := range in.Cat.Order {
+			for _, col := range in.Cat.Tables[tn].Cols {
+				if col.Default == name {
+					if !cascade {
+						panic(reject{kind: "sequence-in-use", table: tn, col: col.Name, other: name,
+							msg: fmt.Sprintf("cannot drop sequence %q because the default of column %q.%q depends on it", name, tn, col.Name)})
+					}
+					col.Default = ""
+				}
+			}
+		}
+		delete(in.Cat.Seqs, name)
+	case c.kw("drop", "table"):
+		form = "DROP TABLE"
+		ifEx := c.kw("if", "exists")
+		name := mustIdent(c, "table name")
+		cascade := c.kw("cascade")
+		mustEnd(c)
+		t := in.Cat.Tables[name]
+		if t == nil {
+			if ifEx {
+				break
+			}
+			panic(reject{kind: "unknown-table", table: name, msg: fmt.Sprintf("table %q does not exist", name)})
+		}
+		for _, on := range in.Cat.Order {
+			ot := in.Cat.Tables[on]
+			if ot == t {
+				continue
+			}
+			var keep []*fkDef
+			for _, f := range ot.FKs {
+				if f.RefTable == name {
+					if !cascade {
+						panic(reject{kind: "table-referenced", table: name, other: on + "." + f.Col,
+							msg: fmt.Sprintf("cannot drop table %q because constraint %q on table %q depends on it", name, f.Name, on)})
+					}
+					continue
+				}
+				keep = append(keep, f)
+			}
+			ot.FKs = keep
+		}
+		delete(in.Cat.Tables, name)
+		for i, n := range in.Cat.Order {
+			if n == name {
+				in.Cat.Order = append(in.Cat.Order[:i:i], in.Cat.Order[i+1:]...)
+				break
+			}
+		}
+		for sq, owner := range in.Cat.Seqs {
+			if strings.HasPrefix(owner, name+".") {
+				delete(in.Cat.Seqs, sq)
+			}
+		}
 	case c.kw("alter", "sequence"):
 		form = "ALTER SEQUENCE OWNED BY"
 		name := mustIdent(c, "sequence name")
@@ -798,10 +873,14 @@ func (in *Interp) alterTable(c *cur) string {
 	case c.kw("drop", "column"):
 		form := "ALTER TABLE DROP COLUMN"
 		cn := mustIdent(c, "column name")
+		cascade := c.kw("cascade")
 		mustEnd(c)
+		if cascade {
+			form = "ALTER TABLE DROP COLUMN CASCADE"
+		}
 		t := in.tableF(form, tn)
 		in.columnF(form, t, cn)
-		in.dropColumn(form, t, cn)
+		in.dropColumn(form, t, cn, cascade)
 		return form
 	case c.kw("alter", "column"):
 		cn := mustIdent(c, "column name")
@@ -822,6 +901,12 @@ func (in *Interp) alterTable(c *cur) string {
 			}
 			col.Type = ty.norm
 			in.Forms["ALTER COLUMN TYPE "+typeForm(ty)]++
+			return form
+		case c.kw("drop", "default"):
+			form := "ALTER TABLE ALTER COLUMN DROP DEFAULT"
+			mustEnd(c)
+			t := in.tableF(form, tn)
+			in.columnF(form, t, cn).Default = ""
 			return form
 		case c.kw("set", "default"):
 			form := "ALTER TABLE ALTER COLUMN SET DEFAULT nextval"
@@ -848,8 +933,12 @@ func (in *Interp) alterTable(c *cur) string {
 		panic(parseFail{"ALTER COLUMN action not in the interpreted subset"})
 	case c.kw("drop", "constraint"):
 		form := "ALTER TABLE DROP CONSTRAINT"
+		ifEx := c.kw("if", "exists")
 		name := mustIdent(c, "constraint name")
 		mustEnd(c)
+		if ifEx {
+			form = "ALTER TABLE DROP CONSTRAINT IF EXISTS"
+		}
 		t := in.tableF(form, tn)
 		if t.HasPK && t.PKName == name {
 			t.HasPK, t.PKName, t.PK = false, "", nil
@@ -862,6 +951,9 @@ func (in *Interp) alterTable(c *cur) string {
 				in.Forms["DROP CONSTRAINT (foreign key)"]++
 				return form
 			}
+		}
+		if ifEx {
+			return form
 		}
 		panic(rejectWithForm(form, reject{kind: "unknown-constraint", table: tn, other: name,
 			msg: fmt.Sprintf("constraint %q of relation %q does not exist", name, tn)}))
@@ -934,16 +1026,22 @@ func (in *Interp) columnF(form string, t *tableDef, name string) *colDef {
 
 // dropColumn implements DROP COLUMN (RESTRICT): refused while a foreign key of another
 // table references the column; constraints of the table that involve the column go with it.
-func (in *Interp) dropColumn(form string, t *tableDef, cn string) {
+func (in *Interp) dropColumn(form string, t *tableDef, cn string, cascade bool) {
 	for _, on := range in.Cat.Order {
 		ot := in.Cat.Tables[on]
+		var keep []*fkDef
 		for _, f := range ot.FKs {
 			if f.RefTable == t.Name && f.RefCol == cn && !(ot == t && f.Col == cn) {
+				if cascade {
+					continue
+				}
 				panic(rejectWithForm(form, reject{kind: "column-referenced", table: t.Name, col: cn, other: ot.Name + "." + f.Col,
 					msg: fmt.Sprintf("cannot drop column %q of table %q because constraint %q on table %q depends on it",
 						cn, t.Name, f.Name, ot.Name)}))
 			}
+			keep = append(keep, f)
 		}
+		ot.FKs = keep
 	}
 	for i, col := range t.Cols {
 		if col.Name == cn {
